@@ -125,6 +125,10 @@ class Fn:
         self.fresh = {}                 # PE of a freshly allocated block -> {"lhs": tokens, "ref1": bool, "copied": bool}
         self.content = {}               # name of a pointer to the content of a fresh Variant block -> PE of the block
         self.tparam = None              # name of a parameter that is not a handle (`const String& other` of Variant::operator=)
+        self.bools = {}                 # `const bool x = <condition>;` -> condition tokens
+        self.counter_local = None       # `const usize x = data->ref;` (String): usable in the guard and for capacity policy only
+        self.valalias = {}              # value parameter of an inlined helper -> source PE of the copy
+        self.scalars = set()
 
 
 def px(fn, t):
@@ -206,9 +210,89 @@ def split_top(toks, sep):
     return parts
 
 
+SCALAR_BAD = {"delete", "new", "Atomic", "ref", "clear", "this", "return", "data"}
+
+
+def scalar_only(toks):
+    """tokens that only compute with lengths / capacities (no handle, no counter, no call of the library)"""
+    js = " " + " ".join(toks) + " "
+    js = js.replace(" data -> capacity ", " CAP ").replace(" data -> len ", " LEN ")
+    t = js.split()
+    return not any(x in SCALAR_BAD or x == "->" for x in t)
+
+
+def strip_parens(t):
+    t = list(t)
+    try:
+        while len(t) >= 2 and t[0] == "(" and match_close(t, 0, "(", ")") == len(t) - 1:
+            t = t[1:-1]
+    except Refuse:
+        pass
+    return t
+
+
+def content_of(t):
+    """`(T*)(p + 1)` (any redundant parentheses) -> tokens of p, else None"""
+    t = strip_parens(t)
+    if len(t) < 7 or t[0] != "(":
+        return None
+    try:
+        e = match_close(t, 0, "(", ")")
+    except Refuse:
+        return None
+    if t[e - 1] != "*" or e + 1 >= len(t) or t[e + 1] != "(" or match_close(t, e + 1, "(", ")") != len(t) - 1:
+        return None
+    inner = t[e + 2:-1]
+    if inner[-2:] != ["+", "1"]:
+        return None
+    return inner[:-2]
+
+
+def content_helpers(src):
+    """`static T* name(Data* p) {return (T*)(p + 1);}` -> {name: T tokens}: pure pointer arithmetic, expanded at the call"""
+    out = {}
+    for m in re.finditer(r"static\s+([\w<>,\s:]+?)\s*\*\s*(\w+)\s*\(\s*Data\s*\*\s*(\w+)\s*\)\s*\{\s*return\s*\(\s*([\w<>,\s:]+?)\s*\*\s*\)\s*\(\s*(\w+)\s*\+\s*1\s*\)\s*;\s*\}", src):
+        if m.group(3) == m.group(5) and tokenize(m.group(1)) == tokenize(m.group(4)):
+            out[m.group(2)] = tokenize(m.group(1))
+    return out
+
+
+def normalise(fn, toks):
+    """formatting-level rewrites that do not change the meaning: `T* const x` -> `T* x`; calls of content helpers expanded;
+    `if(!p) return; if(Atomic::decrement(p->ref) == 0) delete p;` -> `if(p && Atomic::decrement(p->ref) == 0) delete p;`"""
+    t = []
+    for k, x in enumerate(toks):
+        if x == "const" and k > 0 and toks[k - 1] == "*":
+            continue
+        t.append(x)
+    helpers = content_helpers(fn.src)
+    out, k = [], 0
+    while k < len(t):
+        if t[k] in helpers and k + 1 < len(t) and t[k + 1] == "(":
+            e = match_close(t, k + 1, "(", ")")
+            out += ["(", "("] + helpers[t[k]] + ["*", ")", "("] + t[k + 2:e] + ["+", "1", ")", ")"]
+            k = e + 1
+        else:
+            out.append(t[k])
+            k += 1
+    t, out, k = out, [], 0
+    while k < len(t):
+        if t[k:k + 3] == ["if", "(", "!"]:
+            e = match_close(t, k + 1, "(", ")")
+            p = t[k + 3:e]
+            tail = ["return", ";", "if", "(", "Atomic", "::", "decrement", "("] + p + ["->", "ref", ")", "==", "0", ")"]
+            if t[e + 1:e + 1 + len(tail)] == tail:
+                out += ["if", "("] + p + ["&&", "Atomic", "::", "decrement", "("] + p + ["->", "ref", ")", "==", "0", ")"]
+                k = e + 1 + len(tail)
+                continue
+        out.append(t[k])
+        k += 1
+    return out
+
+
 class Parser:
-    def __init__(self, fn, toks, clear_body=None):
-        self.fn, self.t, self.i, self.clear_body = fn, toks, 0, clear_body
+    def __init__(self, fn, toks, clear_body=None, norm=True):
+        self.fn, self.t, self.i, self.clear_body = fn, (normalise(fn, toks) if norm else toks), 0, clear_body
 
     def peek(self, k=0):
         return self.t[self.i + k] if self.i + k < len(self.t) else None
@@ -234,7 +318,7 @@ class Parser:
         return seq(out)
 
     def sub(self, toks):
-        p = Parser(self.fn, toks, self.clear_body)
+        p = Parser(self.fn, toks, self.clear_body, norm=False)
         return p.block()
 
     def one_stmt_tokens(self):
@@ -271,6 +355,22 @@ class Parser:
                 return j + 1
         raise Refuse("missing ;")
 
+    def resolve_cond(self, c):
+        """bool locals and one-line predicates of the class are replaced by their definition; `&other == this` = not notSelf"""
+        fn = self.fn
+        c = strip_parens(c)
+        if len(c) == 1 and c[0] in fn.bools:
+            c = fn.bools[c[0]]
+        if len(c) >= 3 and re.fullmatch(r"[A-Za-z_]\w*", c[0]) and c[1] == "(" and c[-1] == ")" and c[0] not in ("Atomic",):
+            m = re.search(r"bool\s+" + re.escape(c[0]) + r"\s*\(\s*(?:const\s+)?\w+\s+(\w+)\s*\)\s*(?:const\s*)?\{\s*return\s+([^;{}]+);\s*\}", fn.src)
+            if m:
+                body = tokenize(m.group(2))
+                c = [y for k, x in enumerate(body)
+                     for y in (c[2:-1] if (x == m.group(1) and (k == 0 or body[k - 1] not in ("->", "."))) else [x])]
+        if fn.param is not None and c == ["&", fn.param, "==", "this"]:
+            return ["&", fn.param, "!=", "this"], True
+        return c, False
+
     def ends_with_return(self, toks):
         """does the statement list end with a top-level `return …;`"""
         depth, start = 0, 0
@@ -292,13 +392,17 @@ class Parser:
         fn = self.fn
         if fn.cls == "String":
             parts = split_top(c, "&&")
-            if parts[0] == ["data", "->", "ref", "==", "1"] and len(parts) <= 2:
+            if parts[0] in (["data", "->", "ref", "==", "1"], [fn.counter_local, "==", "1"]) and len(parts) <= 2 \
+                    and (len(parts) == 1 or scalar_only(parts[1])):
                 return ".sole"
             return None
         if fn.cls == "Variant":
             parts = split_top(c, "||")
             ty = lambda x: len(x) == 5 and x[:4] == ["data", "->", "type", "!="]
             sh = lambda x: x == ["data", "->", "ref", ">", "1"]
+            pos = split_top(c, "&&")
+            if len(pos) == 2 and len(pos[0]) == 5 and pos[0][:4] == ["data", "->", "type", "=="] and pos[1] == ["data", "->", "ref", "<=", "1"]:
+                return ".sole"
             if len(parts) == 2 and ty(parts[0]) and sh(parts[1]):
                 return ".notSole"
             if len(parts) == 1 and ty(parts[0]):
@@ -371,6 +475,9 @@ class Parser:
                 # `if(c) { …; return …; } [else X] rest`  ==  `if(c) { … } else { [X] rest }`
                 else_t = (else_t or []) + self.t[self.i:]
                 self.i = len(self.t)
+            cond, swap = self.resolve_cond(cond)
+            if swap:
+                then_t, else_t = (else_t or []), then_t
             p = self.release_cond(cond)
             if p is not None:
                 if else_t is not None:
@@ -388,12 +495,26 @@ class Parser:
                 c = f".counted {px(fn, cond)[0]}"
             elif len(cond) > 3 and cond[-3:] == ["==", "&", "emptyData"] and px(fn, cond[:-3]) is not None:
                 c = f".isStatic {px(fn, cond[:-3])[0]}"
+            elif cond[-3:] == ["ref", "!=", "0"] and cond[-4:-3] == ["->"] and px(fn, cond[:-4]) is not None and fn.cls != "Ptr":
+                c = f".counted {px(fn, cond[:-4])[0]}"
+            elif fn.cls == "String" and "==" in cond and px(fn, cond[:cond.index("==")]) is not None \
+                    and px(fn, cond[cond.index("==") + 1:]) is not None \
+                    and {px(fn, cond[:cond.index("==")])[1], px(fn, cond[cond.index("==") + 1:])[1]} == {"ref"}:
+                c = f".samePtr {px(fn, cond[:cond.index('==')])[0]} {px(fn, cond[cond.index('==') + 1:])[0]}"
             elif self.guard(cond) is not None:
                 c = self.guard(cond)
+            elif scalar_only(cond):
+                a = self.sub(then_t)
+                b = self.sub(else_t) if else_t is not None else ".skip"
+                if a != ".skip" or b != ".skip":
+                    raise Refuse(f"a condition on lengths / capacities decides about handles: {' '.join(cond)}")
+                return ".skip"
             else:
                 raise Refuse(f"condition not understood: {' '.join(cond)}")
             a = self.sub(then_t)
             b = self.sub(else_t) if else_t is not None else ".skip"
+            if a == ".skip" and b == ".skip":
+                return ".skip"
             return f".ite ({c}) ({a}) ({b})"
         if t == "return":
             s = self.until_semicolon()
@@ -403,7 +524,9 @@ class Parser:
                 return ".skip"
             if len(s) == 3 and s[1] == "*" and s[2] in fn.content:
                 return ".skip"                      # reference into the fresh block
-            if fn.cls == "Variant" and s[1:3] == ["*", "("] and s[-5:] == ["(", "data", "+", "1", ")"]:
+            if len(s) > 4 and re.fullmatch(r"[A-Za-z_]\w*", s[1]) and s[2] == "(" and s[-1] == ")" and len(split_top(s[3:-1], ",")) == 2:
+                return self.helper2(s[1], split_top(s[3:-1], ","))
+            if fn.cls == "Variant" and s[1] == "*" and content_of(s[2:]) == ["data"]:
                 return ".writeInPlace"              # mutable reference into the shared-checked payload
             raise Refuse(f"return not understood: {' '.join(s)}")
         if t in ("for", "while", "do", "switch", "goto", "try"):
@@ -418,18 +541,32 @@ class Parser:
         if s == ["clear", "(", ")"]:
             if self.clear_body is None:
                 raise Refuse("call of clear() where no clear body is known")
-            return self.clear_body
+            return self.helper("clear", None)       # inlined in place (its locals are numbered with those of the caller)
         if s[:4] == ["Atomic", "::", "increment", "("] and s[-1] == ")" and s[-3:-1] == ["->", "ref"]:
             pe, f = need_px(fn, s[4:-3], "increment")
             if f != "ref":
                 raise Refuse("increment through a pointer that is not the counted field")
             return f".inc {pe}"
+        if (s[:1] == ["bool"] or s[:2] == ["const", "bool"]) and "=" in s:
+            k = s.index("=")
+            fn.bools[s[k - 1]] = s[k + 1:]
+            return ".skip"
+        if fn.cls == "String" and s[-4:] == ["=", "data", "->", "ref"] and (s[:1] == ["usize"] or s[:2] == ["const", "usize"]) \
+                and len(s) - 4 in (2, 3) and fn.counter_local is None:
+            fn.counter_local = s[-5]
+            return ".skip"
+        if re.fullmatch(r"[A-Za-z_]\w*", s[0]) and s[0] in fn.scalars and "=" in s and scalar_only(s):
+            return ".skip"
+        if len(s) > 3 and re.fullmatch(r"[A-Za-z_]\w*", s[0]) and s[1] == "(" and s[-1] == ")" and len(split_top(s[2:-1], ",")) == 2 \
+                and s[0] not in ("Memory",):
+            return self.helper2(s[0], split_top(s[2:-1], ","))
         # scalar locals computed without calls from lengths / capacities (`usize capacity = minCapacity | 0x3;`): no effect on
         # handles; a local that holds the COUNTER is refused (the read of the counter is the guard itself)
         if (s[:1] == ["usize"] or s[:2] == ["const", "usize"]) and "=" in s:
             k = s.index("=")
             if "(" in s[k:] or "ref" in s[k:] or not re.fullmatch(r"[A-Za-z_]\w*", s[k - 1]) or s[k - 1] == "ref":
                 raise Refuse(f"scalar local not understood: {' '.join(s)}")
+            fn.scalars.add(s[k - 1])
             return ".skip"
         r = self.block_stmt(s)
         if r is not None:
@@ -456,7 +593,7 @@ class Parser:
                     fn.locals[name] = (fn.nloc, "ref")
                     fn.nloc += 1
                     self.alloc(pe, [name], rhs)
-                    return ".bind .static_"
+                    return f".bind {fn.nloc - 1} .static_"
                 r, f = need_px(fn, rhs, "initialiser of a pointer local")
                 if f == "raw":
                     f = "ref" if lhs[:-2] == ["Object"] else "obj"
@@ -464,7 +601,7 @@ class Parser:
                     f = "ref"
                 fn.locals[name] = (fn.nloc, f)
                 fn.nloc += 1
-                return f".bind {r}" if f == "ref" else f".bindO {r}"
+                return f".bind {fn.nloc - 1} {r}" if f == "ref" else f".bindO {fn.nloc - 1} {r}"
             if lhs[:1] == ["Data"] and len(lhs) == 2 and rhs[:1] == ["*"]:
                 pe, _ = need_px(fn, rhs[1:], "struct copy")
                 fn.structs[lhs[1]] = pe
@@ -508,6 +645,34 @@ class Parser:
             return Parser(fn, body, self.clear_body).block()
         finally:
             fn.aliases, fn.depth = saved
+
+    def value_src(self, arg):
+        fn = self.fn
+        if not arg:
+            return ".static_"
+        if len(arg) == 1 and arg[0] in fn.valalias:
+            return fn.valalias[arg[0]]
+        if "this" in arg or "data" in arg:
+            return ".self"
+        if fn.tparam is not None and arg == [fn.tparam]:
+            return ".other"
+        raise Refuse(f"value that is neither the own content nor the argument: {' '.join(arg)}")
+
+    def helper2(self, name, args):
+        """`name(type, value)` -> the body of `template <class T> T& name(Type t, const T& v)` inlined (v = the value copied)"""
+        fn = self.fn
+        if fn.depth >= 2:
+            raise Refuse(f"call of {name}() is outside the subset")
+        rx = r"template\s*<\s*class\s+T\s*>\s*T\s*&\s*" + re.escape(name) + r"\s*\(\s*Type\s+\w+\s*,\s*const\s+T\s*&\s*(?P<p>[A-Za-z_]\w*)\s*\)"
+        param, init, body = find_function(fn.src, rx, f"helper {name}()")
+        saved = (dict(fn.valalias), fn.depth)
+        fn.valalias = dict(fn.valalias)
+        fn.valalias[param] = self.value_src(args[1])
+        fn.depth += 1
+        try:
+            return Parser(fn, body, self.clear_body).block()
+        finally:
+            fn.valalias, fn.depth = saved
 
     def inline_fields(self, first, rhs):
         """`_data.ref = 0; _data.str = …; _data.len = …;` in any order -> one copyInline from the arguments"""
@@ -573,29 +738,30 @@ class Parser:
                 return f".allocCopy {dst} {src}"
         if fn.cls == "Variant":
             # T* x = (T*)(p + 1);
-            m = re.match(r"^[\w<>, :]+ \* (\w+) = \( [\w<>, :]+ \* \) \( (.+?) \+ 1 \)$", js)
-            if m and px(fn, m.group(2).split(" ")) is not None and px(fn, m.group(2).split(" "))[0] in fn.fresh:
-                fn.content[m.group(1)] = px(fn, m.group(2).split(" "))[0]
-                return ".skip"
+            if "=" in s and s.index("=") >= 3 and s[s.index("=") - 2] == "*" and content_of(s[s.index("=") + 1:]) is not None:
+                pp = px(fn, content_of(s[s.index("=") + 1:]))
+                if pp is not None and pp[0] in fn.fresh:
+                    fn.content[s[s.index("=") - 1]] = pp[0]
+                    return ".skip"
             # new (x) T(arg);  /  new (x) T;
-            if s[:2] == ["new", "("] and len(s) > 3 and s[3] == ")" and s[2] in fn.content:
-                dst = fn.content[s[2]]
-                rest = s[4:]
-                arg = rest[rest.index("(") + 1:-1] if "(" in rest else []
-                if not arg:
-                    src = ".static_"
-                elif "this" in arg or "data" in arg:
-                    src = ".self"
-                elif fn.tparam is not None and arg == [fn.tparam]:
-                    src = ".other"
+            if s[:2] == ["new", "("]:
+                e = match_close(s, 1, "(", ")")
+                where = s[2:e]
+                if len(where) == 1 and where[0] in fn.content:
+                    dst = fn.content[where[0]]
+                elif content_of(where) is not None and px(fn, content_of(where)) is not None and px(fn, content_of(where))[0] in fn.fresh:
+                    dst = px(fn, content_of(where))[0]
                 else:
-                    raise Refuse(f"placement new from something else than the own content or the argument: {js}")
+                    raise Refuse(f"placement new outside a fresh block: {js}")
+                rest = s[e + 1:]
+                arg = rest[rest.index("(") + 1:-1] if "(" in rest else []
+                src = self.value_src(arg)
                 if fn.fresh[dst]["copied"]:
                     raise Refuse("second construction in a fresh block")
                 fn.fresh[dst]["copied"] = True
                 return f".allocCopy {dst} {src}"
             # *(T*)(data + 1) = other;
-            if fn.tparam is not None and re.match(r"^\* \( [\w<>, :]+ \* \) \( data \+ 1 \) = " + re.escape(fn.tparam) + r"$", js):
+            if fn.tparam is not None and s[0] == "*" and s[-2:] == ["=", fn.tparam] and content_of(s[1:-2]) == ["data"]:
                 return ".writeInPlace"
         return None
 
